@@ -55,6 +55,11 @@ type Opaque struct {
 
 func (t Opaque) Tag() (int, int) { return t.P, t.S }
 
+// Arr2 is an array of structs: comparable, hashable, usable as a cache key.
+type Arr2 [2]T0
+
+func (a Arr2) Tag() (int, int) { return a[0].P, a[0].S }
+
 type tagged interface{ Tag() (int, int) }
 
 // errVal is the error / TerminalError value scripts return.
@@ -137,6 +142,7 @@ const (
 	pMap
 	pAnonFn
 	pOpaque
+	pArr2
 	poolSize
 )
 
@@ -164,6 +170,7 @@ var pool = []*poolType{
 	concU("map[string]int", func(p, s int) map[string]int { return map[string]int{"p": p, "s": s} }),
 	concU("func()", func(p, s int) func() { return func() {} }),
 	concK("Opaque", func(p, s int) Opaque { return Opaque{P: p, S: s} }),
+	conc("Arr2", func(p, s int) Arr2 { return Arr2{T0{p, s}, T0{}} }),
 }
 
 var (
